@@ -17,8 +17,15 @@ from concurrent.futures import ThreadPoolExecutor
 VERIF = os.path.dirname(os.path.dirname(os.path.abspath(__file__)))
 REPO = os.environ.get("RV_REPO", "/repo")
 WORK = os.path.join(VERIF, "work")
+MC_CACHE = os.path.join(VERIF, "work", "mc_cache")   # keyed by spec hash: shared by all runs
 SPEC = os.path.join(VERIF, "spec")
 HARNESS = os.path.join(VERIF, "harness")
+# RV_REPO=<other tree> runs the same checks against a scratch copy of the repository (seeded changes): the harness is
+# built from a rewritten copy under work/, evidence and replays go to work/alt/ (never to the committed directories)
+ALT = os.path.realpath(REPO) != "/repo"
+OUT = os.path.join(VERIF, "work", "alt", os.path.basename(os.path.realpath(REPO))) if ALT else VERIF
+if ALT:
+    WORK = os.path.join(OUT, "w")   # scratch of runs against another tree never collides with runs against /repo
 TLC_JAR = "/opt/veriftools/tla/tla2tools.jar"
 NPROC = int(os.environ.get("RV_NPROC", "12"))
 
@@ -84,6 +91,19 @@ def build_harness(profile="dev"):
     """Rebuild the harness against /repo's current working tree (hooks on). Returns the binary path."""
     if profile in _built:
         return _built[profile]
+    global HARNESS
+    if ALT and not HARNESS.startswith(os.path.join(VERIF, "work")):
+        alt = os.path.join(VERIF, "work", "alt", os.path.basename(os.path.realpath(REPO)), "harness")
+        ensure_dir(alt)
+        for item in ("src", ".cargo"):
+            shutil.rmtree(os.path.join(alt, item), ignore_errors=True)
+            shutil.copytree(os.path.join(HARNESS, item), os.path.join(alt, item))
+        shutil.copy(os.path.join(HARNESS, "Cargo.lock"), os.path.join(alt, "Cargo.lock"))
+        with open(os.path.join(HARNESS, "Cargo.toml")) as f:
+            toml = f.read().replace('path = "/repo/rarena-allocator"', 'path = "%s/rarena-allocator"' % os.path.realpath(REPO))
+        with open(os.path.join(alt, "Cargo.toml"), "w") as f:
+            f.write(toml)
+        HARNESS = alt
     lock_src = os.path.join(REPO, "Cargo.lock")
     lock_dst = os.path.join(HARNESS, "Cargo.lock")
     if not os.path.exists(lock_dst) and os.path.exists(lock_src):
@@ -296,14 +316,14 @@ def write_evidence(prop, tier, seed, level, coverage, wall, violations, assumpti
           "wall_s": round(wall, 2), "violations": violations, "assumptions": assumptions or []}
     if extra:
         ev.update(extra)
-    ensure_dir(os.path.join(VERIF, "evidence"))
-    with open(os.path.join(VERIF, "evidence", prop + ".json"), "w") as f:
+    ensure_dir(os.path.join(OUT, "evidence"))
+    with open(os.path.join(OUT, "evidence", prop + ".json"), "w") as f:
         json.dump(ev, f, indent=1)
     return ev
 
 
 def save_replay(prop, payload):
-    d = ensure_dir(os.path.join(VERIF, "replays", prop))
+    d = ensure_dir(os.path.join(OUT, "replays", prop))
     s = json.dumps(payload, sort_keys=True)
     h = hashlib.sha256(s.encode()).hexdigest()[:16]
     p = os.path.join(d, h + ".json")
